@@ -70,7 +70,10 @@ PROPS = {
     "C10": dict(corpora=["limits"], prefix="C10."),
     "C20": dict(corpora=["schema"], corpora_thorough=["schema", "schema_errors"], prefix="C20."),
     "C11": dict(corpora=["stream_hostile", "stream_faults", "stream_errors", "stream_reject"], prefix="C11."),
-    "C12": dict(corpora=["timeout"], prefix="C12."),
+    "C12": dict(corpora=["timeout"], prefix="C12.",
+                # unbounded arithmetic of the gRPC / Connect timeout encoders (SMT): the code's comparisons must be
+                # proved, the what-if (<= at the unit boundaries) must be refuted
+                apalache=[("GrpcTimeoutEnc.tla", "CInitStrict", "Inv", "ok"), ("GrpcTimeoutEnc.tla", "CInitLoose", "Inv", "violated")]),
     "C13": dict(corpora=["stream_matrix", "stream_reject"], prefix="C13."),
     "C14": dict(corpora=["conc"], prefix="C14.", design=[("MCPool.tla", "pool_conc2.cfg")],
                 design_thorough=[("MCPool.tla", "pool_conc.cfg")]),
@@ -267,6 +270,12 @@ def check(pid, tier, seed, work, t0):
         if g["ok"] or not any("is violated" in e for e in g["errors"]):
             raise Inconclusive("what-if model %s/%s was not rejected by TLC: the design check would be vacuous" % (module, cfg))
         design["whatif:" + cfg] = dict(rejected=True, states=g["distinct"])
+    for module, cinit, inv, want in prop.get("apalache", []):
+        log("[apalache] %s %s %s (expected: %s)" % (module, cinit, inv, want))
+        got = vlib.run_apalache(work, module, cinit, inv)
+        if got != want:
+            raise Inconclusive("apalache %s/%s: expected %s, got %s (a design proof, not a verdict on the code)" % (module, cinit, want, got))
+        design["apalache:%s:%s" % (module, cinit)] = got
     for name in (prop.get("corpora_thorough") if tier == "thorough" and prop.get("corpora_thorough") else prop["corpora"]):
         r = run_corpus(name, tier, seed, work, binary)
         scn_files[name] = r["scn_file"]
